@@ -324,7 +324,7 @@ def _chord_separator(ctx):
         if isinstance(n, ast.Call) and isinstance(n.func, ast.Attribute) and n.func.attr == 'join' and isinstance(n.func.value, ast.Constant) \
                 and n.args and 'self.notes_tokens' in src(n.args[0]):
             seps.add(n.func.value.value)
-        if isinstance(n, ast.For) and src(n.iter) == 'self.notes_tokens':
+        if isinstance(n, ast.For) and 'self.notes_tokens' in src(n.iter):
             for sp in symex.sym_paths(n.body, fi=ch):
                 for name, val in sp.env.items():
                     parts = []
